@@ -400,6 +400,54 @@ func checkC14(p *Prog, r *Report) {
 		rec(f)
 		r.Check(ok, "UDP mux buffer pool", p.Pos(f.Body.Pos()), "holders of >= receiveMTU bytes", "UDP mux packet holders are smaller than receiveMTU")
 	}
+
+	// ---- R14.7 the buffered writer forwards whole frames one by one ----------------------------------------
+	r.Rule("R14.7", "bufferedConn.writeProcess reads each queued frame into the start of its buffer and writes exactly the bytes that read returned: it never accumulates several buffer reads into one write (the packet buffer truncates a frame that does not fit and reports a short buffer, so a batched write can carry a frame whose header promises more than follows).", 2)
+	if f := p.Fn("bufferedConn.writeProcess"); r.Anchor("bufferedConn.writeProcess", f != nil) {
+		bufObj := p.localByDef(f, func(rhs ast.Expr) bool {
+			c, ok := unparen(rhs).(*ast.CallExpr)
+			return ok && p.CalleeName(c) == "builtin.make"
+		})
+		nRead, okRead := 0, true
+		var nObjs []types.Object
+		walkBody(f, func(x ast.Node) bool {
+			as, ok := x.(*ast.AssignStmt)
+			if !ok || len(as.Rhs) != 1 {
+				return true
+			}
+			c, ok := unparen(as.Rhs[0]).(*ast.CallExpr)
+			if !ok {
+				return true
+			}
+			sel, ok := unparen(c.Fun).(*ast.SelectorExpr)
+			if !ok || sel.Sel.Name != "Read" || !p.IsField(sel.X, "bufferedConn.buf") {
+				return true
+			}
+			nRead++
+			if len(c.Args) != 1 || !p.isObj(c.Args[0], bufObj) {
+				okRead = false
+			}
+			if id, ok := unparen(as.Lhs[0]).(*ast.Ident); ok {
+				nObjs = append(nObjs, p.ObjOf(id))
+			}
+			return true
+		})
+		r.Check(nRead == 1 && okRead, "writeProcess: one buffer read per write, into the start of the buffer", p.Pos(f.Body.Pos()), "n, err := bc.buf.Read(pktBuf)", fmt.Sprintf("%d reads from the packet buffer, destination is the whole buffer=%v: frames are batched / appended at an offset", nRead, okRead))
+		okWrite, nWrite := true, 0
+		walkBody(f, func(x ast.Node) bool {
+			c, ok := x.(*ast.CallExpr)
+			if !ok || p.CalleeName(c) != "net.Conn.Write" {
+				return true
+			}
+			nWrite++
+			sl, ok := unparen(c.Args[0]).(*ast.SliceExpr)
+			if !ok || sl.Low != nil || !p.isObj(sl.X, bufObj) || len(nObjs) != 1 || !p.isObj(sl.High, nObjs[0]) {
+				okWrite = false
+			}
+			return true
+		})
+		r.Check(okWrite && nWrite == 1, "writeProcess: writes exactly what was read", p.Pos(f.Body.Pos()), "Conn.Write(pktBuf[:n])", "the write does not send exactly the bytes of the one buffered frame that was read")
+	}
 }
 
 // errOfCall: e is the error variable assigned from call (possibly in a
